@@ -1,6 +1,7 @@
 package world
 
 import (
+	"errors"
 	"context"
 
 	"git.defalsify.org/vise.git/db"
@@ -27,3 +28,26 @@ func (m *MarkDb) Put(ctx context.Context, key []byte, val []byte) error {
 }
 
 func (m *MarkDb) SetLanguage(l *lang.Language) { m.Db.SetLanguage(l) }
+
+// FaultDb wraps the store handle a persister is given: the read of the session record fails once with
+// an I/O-style error (a connection reset, an EIO) when the session asks for it.
+type FaultDb struct {
+	db.Db
+	S   *Sess
+	pfx uint8
+}
+
+func (f *FaultDb) SetPrefix(p uint8) { f.pfx = p; f.Db.SetPrefix(p) }
+
+func (f *FaultDb) SetLanguage(l *lang.Language) { f.Db.SetLanguage(l) }
+
+func (f *FaultDb) Get(ctx context.Context, key []byte) ([]byte, error) {
+	if f.S.FailLoadThisRequest && f.pfx == db.DATATYPE_STATE {
+		f.S.FailLoadThisRequest = false
+		f.S.LoadFailed++
+		f.S.W.Fired["store_read_error"]++
+		f.S.W.Rec.Add(f.S.Idx, "Load", string(key), "FAULT")
+		return nil, errors.New("injected store read error: connection reset by peer")
+	}
+	return f.Db.Get(ctx, key)
+}
